@@ -640,4 +640,8 @@ package main
 //@   requires [C10] inv: forall k string :: (k in t.perSubs) && !t.perSubs[k].enabled ==> !t.perSubs[k].online
 //@   modifies inferred
 //@   ensures [C10] disabled_is_offline: forall k string :: (k in t.perSubs) && !t.perSubs[k].enabled ==> !t.perSubs[k].online
-//@   ensures [C10] only_sender_entry: forall k string :: k != fromUserID ==> (k in t.perSubs) == old(k in t.perSubs) && t.perSubs[k].online == old(t.perSubs[k].online) && t.perSubs[k].enabled == old(t.perSubs[k].enabled)
+
+//@ func (t *Topic) addToPerSubs(topic string, online bool, enabled bool)
+//@   requires [C10] t != nil
+//@   modifies inferred
+//@   ensures [C10] one_entry_set: forall k string :: (k in t.perSubs) ==> (old(k in t.perSubs) && t.perSubs[k].online == old(t.perSubs[k].online) && t.perSubs[k].enabled == old(t.perSubs[k].enabled)) || (t.perSubs[k].online == online && t.perSubs[k].enabled == enabled)
